@@ -461,6 +461,29 @@ func runScenario(s scenario) result {
 		return true
 	}) {
 		fail("C14/lifecycle", "IsDone() did not become true after the effect returned")
+	} else {
+		// "YieldFromIO returns the IO's value" - it evaluates the IO and uses nothing of the coroutine, so the
+		// handles of the finished coroutines still do it (inline IO and IO observed on a handler)
+		for i, c := range cors {
+			if c == nil || !c.IsDone() {
+				continue
+			}
+			for k, io := range []*fpgo.MonadIODef[int]{
+				fpgo.MonadIONewGenerics(func() int { return 31000 + i }),
+				fpgo.MonadIONewGenerics(func() int { time.Sleep(50 * time.Microsecond); return 32000 + i }).ObserveOn(h),
+			} {
+				out := make(chan int, 1)
+				go func() { out <- c.YieldFromIO(io) }()
+				select {
+				case v := <-out:
+					if v != 31000+1000*k+i {
+						fail("C14/yieldFromIO", "the handle of finished coroutine %d: YieldFromIO returned %d, the IO's value is %d (IO observed on a handler: %v)", i, v, 31000+1000*k+i, k == 1)
+					}
+				case <-time.After(vlib.StallBudget()):
+					fail("C14/yieldFromIO", "the handle of finished coroutine %d: YieldFromIO does not return", i)
+				}
+			}
+		}
 	}
 	// ---- pairing oracle
 	tl := targetLog
